@@ -2301,34 +2301,34 @@ def rdtsc(info):
     return e
 
 def cbw(info):
-    # TODO: emulation is not valid
-    a = eax
+    # cbw (16 bit operand size): ax = sign extension of al
+    # cwde (32 bit operand size): eax = sign extension of ax
     opmode, admode = info.opmode, info.admode
     if opmode == x86_afs.u16:
         s = 16
-        src = a[:8]
-        dst = a[:16]
-
+        dst = eax[:16]
     else:
         s = 32
-        src = a[:16]
-        dst = a[:32]
-    int_cast = tab_uintsize[s]
-
-    byte_h_0 = ExprInt(int_cast(0))
-    byte_h_f = ExprInt(int_cast(((1<<(s//2))-1)))
-
-    mask = ExprCond(get_op_msb(src), byte_h_f, byte_h_0)
+        dst = eax
+    src = eax[:s//2]
+    int_cast = tab_uintsize[s//2]
+    mask = ExprCond(get_op_msb(src),
+                    ExprInt(int_cast((1<<(s//2))-1)),
+                    ExprInt(int_cast(0)))
     e = []
-    e.append(ExprAff(a, ExprCompose([(a,    0, s//2),
-                                     (mask, s//2, s)])))
+    e.append(ExprAff(dst, ExprCompose([(src,  0, s//2),
+                                       (mask, s//2, s)])))
     return e
 
 def cwd(info):
-    # TODO: emulation is not valid
+    # dx = sign of ax (the 32 bit operand size form is cdq)
     e = []
-    e.append(ExprAff(eax, edx))
-    e.append(ExprAff(edx, eax))
+    e.append(ExprAff(edx[:16],
+                     ExprCond(get_op_msb(eax[:16]),
+                              ExprInt(uint16(0xffff)),
+                              ExprInt(uint16(0x0)))
+                     )
+             )
     return e
 
 # XXX TODO
